@@ -15,6 +15,7 @@ mod util;
 mod viol;
 mod wl_access;
 mod wl_core;
+mod wl_dual;
 mod wl_kinds;
 mod wl_life;
 mod wl_panic;
@@ -48,6 +49,7 @@ fn main() {
         "access" => cmd_access(&args),
         "serde" => cmd_serde(&args),
         "panic" => cmd_panic(&args),
+        "dual" => cmd_dual(&args),
         "kinds" => cmd_kinds(&args),
         "selftest" => cmd_selftest(&args),
         other => {
@@ -650,6 +652,38 @@ fn cmd_panic(a: &Args) -> i32 {
     runner::count("panic.plans_total", plans);
     runner::count("panic.fired_total", fired);
     runner::count("distinct_nontrivial", distinct.len() as u64);
+    0
+}
+
+/// Two containers of different pointee kinds (C12). Keys: execs, seed, shard, alloc.
+fn cmd_dual(a: &Args) -> i32 {
+    tp::set_alloc_mode(parse_alloc(&a.str("alloc", "reuse")));
+    sched::set_mode(Mode::Token);
+    let execs = a.u64("execs", 1000);
+    let seed = a.u64("seed", 1);
+    let shard = a.u64("shard", 0);
+    runner::start_watchdog(a.u64("stall_s", 30));
+    let mut hashes = std::collections::HashSet::new();
+    for n in 0..execs {
+        let exec_no = shard * 10_000_000 + n + 1;
+        let wseed = util::mix(seed.wrapping_mul(0x8000_0013), exec_no);
+        let sseed = util::mix(wseed, 0x5EED);
+        let (ops, trace) = if exec_no % 2 == 0 {
+            wl_dual::run_exec::<FillFastSlots>(wseed, sseed, exec_no)
+        } else {
+            wl_dual::run_exec::<DefaultStrategy>(wseed, sseed, exec_no)
+        };
+        runner::with(|r| {
+            r.execs += 1;
+            r.ops += ops as u64;
+        });
+        hashes.insert(trace);
+        if runner::with(|r| r.violations.len()) >= 50 {
+            break;
+        }
+    }
+    runner::count("dual.executions", execs);
+    runner::count("distinct_nontrivial", hashes.len() as u64);
     0
 }
 
